@@ -42,7 +42,7 @@ def build_cases(scratch, rnd, tier):
     for s in scripts:
         if s["mode"] == "lockstep":
             # ping-pong on bidi; the codes a context error would carry are always among those tried
-            for code in ([0] if s["failK"] == 0 else [1, 4, rnd.choice([2, 3, 5, 7, 8, 9, 10, 11, 13, 14, 15, 16])]):
+            for code in ([0] if s["failK"] == 0 else ([1, 4, rnd.choice([2, 3, 5, 7, 8, 9, 10, 11, 13, 14, 15, 16])] if tier == "quick" else list(range(1, 17)))):
                 c = dict(s)
                 c.update(shape="bidi", code=code, det=rnd.choice([0, 1, 2]), wait=False)
                 cases.append(c)
@@ -62,7 +62,7 @@ def build_cases(scratch, rnd, tier):
                 continue
             # a failing script is run with the two codes a context error would carry (Canceled, DeadlineExceeded)
             # and with seeded others; a succeeding one once
-            codes = [0] if s["failAt"] == "never" else [1, 4] + [rnd.choice([2, 3, 5, 6, 7, 8, 9, 10, 11, 12, 13, 14, 15, 16]) for _ in range(1 if tier == "quick" else 4)]
+            codes = [0] if s["failAt"] == "never" else ([1, 4, rnd.choice([2, 3, 5, 6, 7, 8, 9, 10, 11, 12, 13, 14, 15, 16])] if tier == "quick" else list(range(1, 17)))
             for code in codes:
                 c = dict(s)
                 c.update(shape=shape, code=code, det=rnd.choice([0, 1, 2]), wait=False)
